@@ -130,7 +130,7 @@ class Ctx:
             'violations': self.violations,
             'viol_counts': dict(self.viol_counts),
             'counters': dict(self.counters),
-            'sets': {k: sorted(v)[:400] for k, v in self.sets.items()},
+            'sets': {k: sorted(v)[:3000] for k, v in self.sets.items()},
             'inconclusive': self.inconclusive,
             'exhaustive': self.exhaustive,
             'replay_out': self.replay_out,
